@@ -7,6 +7,6 @@ CONSTANTS
   Cap = 2
   MaxOps = 0
   StrictTx = TRUE
-INVARIANTS TRealStructureOK THeapValid TBounded TQvalDominates TQvalExact TSequential
+INVARIANTS TNoPanic TRealStructureOK THeapValid TBounded TQvalDominates TQvalExact TSequential
 PROPERTIES TEvictionProp
 POSTCONDITION Consumed
